@@ -308,6 +308,11 @@ theorem step_server (cfg : Cfg) (d : Def) (w : World) (e : Ev) :
     cases w.pending <;> simp
   | validate => left; simp [step]
   | clientVerifier up => left; simp [step]
+  | dpollStart => left; simp [step]
+  | dpollFinish i perm =>
+    left
+    simp only [step]
+    split <;> simp
 
 theorem serverOK_register (d : Def) (s : Store) (t fresh : Nat) (vp : VP) (hf : fresh ≠ 0)
     (hi : SInv s) (hl : ∀ r ∈ s.rows, Listed d t r) :
@@ -993,6 +998,8 @@ theorem winv_step {K : VP → Prop} (hK : IdFun K) (cfg : Cfg) (hsf : cfg.servic
   | pollB perm => exact winv_pollB hK cfg hsf hrw d w perm he h
   | validate => exact winv_validate cfg d w h
   | clientVerifier up => exact winv_clientVerifier cfg d w up h
+  | dpollStart => exact he.elim
+  | dpollFinish i perm => exact he.elim
 
 theorem winv_reach {K : VP → Prop} (hK : IdFun K) (cfg : Cfg) (hsf : cfg.serviceFirst = true) (hrw : cfg.restartOnWipe = true)
     (d : Def) {w : World} (h : Reach cfg d K w) : WInv K w := by
@@ -1309,6 +1316,8 @@ theorem srchInv_step (cfg : Cfg) (hsf : cfg.serviceFirst = true) (hrw : cfg.rest
   | pollA => exact h.cv
   | validate => exact cv_validate h.cv
   | clientVerifier up => exact ⟨h.cv.rowsLt, h.cv.valLt, h.cv.inj, h.cv.ver⟩
+  | dpollStart => exact he.elim
+  | dpollFinish i perm => exact he.elim
   | pollB perm =>
     unfold step
     cases hp : w.pending with
